@@ -12,4 +12,4 @@ for f in "$(dirname "$0")"/../regress/*_test.go.txt; do
   PLACE=$(head -1 "$f" | sed -n 's#^// place in: *##p'); [ -z "$PLACE" ] && PLACE=engine
   cp "$f" "$WT/$PLACE/zz_$(basename "${f%.txt}")"
 done
-cd "$WT" && go test -vet=off -count=1 -run 'TestAliases|TestMapGrowth|TestUnrelated|TestAppendAlias|TestOtherKey|TestDeepNesting|TestJSONNumbersKeep|TestPlainOperandOfAndOr|TestSLLAgreesWithLL|TestShapes|TestRejectedTextLeavesNoRule|TestJSONAppendIsKept|TestCancellationAtTheCycleLimit|TestNestedSelectorsBuild' -v ./engine/ ./builder/ ./pkg/ 2>&1 | grep -E '^(---|ok|FAIL|\s+zz_)' | cut -c1-200
+cd "$WT" && go test -vet=off -count=1 -run 'TestAliases|TestMapGrowth|TestUnrelated|TestAppendAlias|TestOtherKey|TestDeepNesting|TestJSONNumbersKeep|TestPlainOperandOfAndOr|TestSLLAgreesWithLL|TestShapes|TestRejectedTextLeavesNoRule|TestJSONAppendIsKept|TestCancellationAtTheCycleLimit|TestNestedSelectorsBuild|TestManySmallResourcesAfterALongCondition' -v ./engine/ ./builder/ ./pkg/ 2>&1 | grep -E '^(---|ok|FAIL|\s+zz_)' | cut -c1-200
